@@ -231,6 +231,18 @@ func hNewRequest(m *Machine, fr *frame, fn *ssa.Function, a []Value) Value {
 	mt := hdrT.Underlying().(*types.Map)
 	m.setField(req, reqT, "Header", &MapObj{KT: mt.Key(), VT: mt.Elem(), ID: m.newID()})
 	if body.T != nil {
+		// like the real NewRequest: a body that is not already an io.ReadCloser is wrapped in io.NopCloser
+		closer := false
+		if ms := m.P.Prog.MethodSets.MethodSet(body.T); ms.Lookup(nil, "Close") != nil {
+			closer = true
+		}
+		if !closer {
+			if iop := m.P.Prog.ImportedPackage("io"); iop != nil && iop.Func("NopCloser") != nil {
+				if wrapped, ok := m.call(iop.Func("NopCloser"), []Value{body}, fr, 0).(Iface); ok {
+					body = wrapped
+				}
+			}
+		}
 		m.setField(req, reqT, "Body", body)
 	}
 	p := new(Value)
